@@ -211,3 +211,58 @@ def rule_handlers(ctx):
 
 def run(ctx):
     return [rule_prec(ctx), rule_assoc(ctx), rule_handlers(ctx)]
+
+
+def rule_codeobj_fields(ctx):
+    """Code-object description bit-fields (inspect.signature reads co_argcount/co_posonlyargcount/co_kwonlyargcount from them):
+    every running-maximum accumulator refers to itself, and each bit-field is sized by the accumulator of the quantity stored in it."""
+    import re
+    ix = ctx.index
+    r = Rule('C25-FIELDS', 'code-object description struct: running maxima are self-referential (A = max(A, x)) and every bit-field is as wide as the maximum of the quantity it stores', floor=8)
+    gs = ix.cls('Code', 'GlobalState')
+    fn = gs.methods.get('generate_codeobject_constants')
+    if fn is None:
+        raise AnalysisError('GlobalState.generate_codeobject_constants vanished')
+    rel = 'Cython/Compiler/Code.py'
+    acc = {}
+    for n in walk_no_nested(fn):
+        if isinstance(n, ast.Assign) and isinstance(n.targets[0], ast.Name) and isinstance(n.value, ast.Call) and isinstance(n.value.func, ast.Name) \
+                and n.value.func.id in ('max', 'min') and len(n.value.args) == 2:
+            tgt = n.targets[0].id
+            a0 = n.value.args[0]
+            r.inst('acc:' + tgt, sample='%s = %s' % (tgt, node_src(n.value, 80)))
+            acc[tgt] = n.value.args[1]
+            if not (isinstance(a0, ast.Name) and a0.id == tgt):
+                r.violate('Code.GlobalState.generate_codeobject_constants:acc:%s' % tgt, rel, n.lineno,
+                          'running maximum %s is updated from %s instead of from itself: its final value (and the width of the bit-field sized from it) ignores earlier functions, '
+                          'so larger counts are truncated in the code object description' % (tgt, node_src(a0, 30)))
+    if len(acc) < 4:
+        raise AnalysisError('only %d accumulators found in generate_codeobject_constants' % len(acc))
+    # bit-fields:  "unsigned int NAME : {ACC.bit_length()};"
+    for n in walk_no_nested(fn):
+        if isinstance(n, ast.JoinedStr):
+            parts = n.values
+            for i, p in enumerate(parts):
+                if isinstance(p, ast.FormattedValue) and isinstance(p.value, ast.Call) and isinstance(p.value.func, ast.Attribute) and p.value.func.attr == 'bit_length' \
+                        and isinstance(p.value.func.value, ast.Name) and i > 0 and isinstance(parts[i - 1], ast.Constant):
+                    m = re.search(r'(\w+)\s*:\s*$', parts[i - 1].value)
+                    if not m:
+                        continue
+                    field, a = m.group(1), p.value.func.value.id
+                    r.inst('field:' + field, sample='%s : %s.bit_length()' % (field, a))
+                    if a not in acc:
+                        continue
+                    attrs = {x.attr for x in ast.walk(acc[a]) if isinstance(x, ast.Attribute)}
+                    # name-aligned: a field called like a def-node attribute must be sized by the accumulator over that attribute
+                    owners = [k for k, e in acc.items() if field in {x.attr for x in ast.walk(e) if isinstance(x, ast.Attribute)}]
+                    if owners and a not in owners:
+                        r.violate('Code.GlobalState.generate_codeobject_constants:field:%s' % field, rel, n.lineno,
+                                  'bit-field %s is sized from %s, but the maximum of .%s is accumulated in %s: values are truncated when they need more bits' % (field, a, field, owners[0]))
+    return r
+
+
+_run0 = run
+
+
+def run(ctx):
+    return _run0(ctx) + [rule_codeobj_fields(ctx)]
